@@ -1290,6 +1290,7 @@ def model_guard_scopes(body):
 
 
 CURRENT_PATHS = []   # source files of the item being processed (where R16 looks for helper definitions)
+CURRENT_ITEM_TEXT = [""]   # text of the impl block being processed: a helper defined in it wins over same-named ones elsewhere (twin flavours)
 
 
 def process_fn(fn, spec, handle, stats, canary):
@@ -1624,6 +1625,7 @@ def extract_impl(path, header_lit, macro, args, handle, spec, stats, canary):
     header = text[m.start() : j]
     body = text[j + 1 : e]
     body = apply_gsubst(expand_inline_macros(body, source(path), path, stats))
+    CURRENT_ITEM_TEXT[0] = body
     stats["verbatim_lines"] += header.count("\n") + 1
     header = drop_attrs_and_docs(header)
     for (a, b) in spec.subst:
@@ -1674,6 +1676,7 @@ def extract_impl(path, header_lit, macro, args, handle, spec, stats, canary):
         gen, trait, selfty, where = "", "", "Self", ""
     else:
         gen, trait, selfty, where = header_generics(header)
+    CURRENT_ITEM_TEXT[1:] = [selfty]
     out = [header.rstrip() + "\n{"]
     tm = re.match(r"Observer\s*<(.*)>\s*$", trait, re.S)
     if tm and not handle and not any("fn records" in x for x in spec.spec):
@@ -1974,13 +1977,45 @@ def inline_helpers(unit_text, names, paths, stats):
                 n_defs += len(re.findall(r"\bfn\s+%s\b" % re.escape(nm), mask_trivia(source(pth))))
             except ExtractError:
                 pass
-        if n_defs != 1:
+        # a helper defined exactly once inside the impl block being processed is THE helper its methods call, even
+        # when the twin flavour's impl block defines one of the same name (C18-i)
+        in_item = len(re.findall(r"\bfn\s+%s\b" % re.escape(nm), mask_trivia(CURRENT_ITEM_TEXT[0]))) == 1
+        if n_defs == 0 and not in_item:
             continue
-        for pth in paths:
-            try:
-                src = source(pth)
-            except ExtractError:
+        cands_ = [CURRENT_ITEM_TEXT[0]] if in_item else []
+        if not in_item and n_defs != 1:
+            # several same-named helpers: the one defined in an impl block of the SAME self type as the item being
+            # processed (base name of the type; e.g. `InnerObserver` vs `InnerObserverThreads`)
+            want_ = re.match(r"\s*(?:&\s*(?:mut\s+)?)?((?:\w+\s*::\s*)*\w+)", CURRENT_ITEM_TEXT[1] if len(CURRENT_ITEM_TEXT) > 1 else "")
+            want_ = want_.group(1).split("::")[-1].strip() if want_ else None
+            for pth in paths:
+                try:
+                    src_ = source(pth)
+                except ExtractError:
+                    continue
+                msk_ = mask_trivia(src_)
+                for im_ in re.finditer(r"\bimpl\b[^{;]*\{", msk_):
+                    ob_ = im_.end() - 1
+                    try:
+                        cb_ = match_close(src_, ob_)
+                    except Exception:
+                        continue
+                    hd_ = re.sub(r"\bwhere\b.*", "", msk_[im_.start():ob_], flags=re.S)
+                    hd_ = re.sub(r"^impl\s*(<[^{]*?>)?\s*", "", hd_.strip()) if not re.search(r"\bfor\b", hd_) else re.split(r"\bfor\b", hd_)[-1]
+                    tm_ = re.match(r"\s*((?:\w+\s*::\s*)*\w+)", hd_)
+                    if not tm_ or not want_ or tm_.group(1).split("::")[-1].strip() != want_:
+                        continue
+                    if len(re.findall(r"\bfn\s+%s\b" % re.escape(nm), msk_[ob_:cb_])) == 1:
+                        cands_.append(src_[ob_ + 1:cb_])
+            if len(cands_) != 1:
                 continue
+        elif not in_item:
+            for pth in paths:
+                try:
+                    cands_.append(source(pth))
+                except ExtractError:
+                    continue
+        for src in cands_:
             msk = mask_trivia(src)
             for dm in re.finditer(r"\bfn\s+%s\s*(?:<[^>()]*>)?\s*\(" % re.escape(nm), msk):
                 pe = match_close(src, dm.end() - 1, "(", ")")
